@@ -23,8 +23,8 @@ def check():
 
 
 def non_test_span(src):
-    i = src.find("#[cfg(test)]\nmod tests")
-    return len(src) if i < 0 else i
+    idx = [i for i in (src.find("#[cfg(test)]"), src.find("#[test]")) if i >= 0]
+    return min(idx) if idx else len(src)
 
 
 def rename(src, names, upto):
